@@ -53,9 +53,50 @@ class Sym:
             return self.place(op["pl"], depth)
         return self.place(op, depth)
 
+    def _ok_origin(self, branch_block):
+        """for `x?` at branch_block whose operand is a local with several definitions (the return place of an inlined helper):
+        the one definition that can be Ok/Some (an `Ok(..)` aggregate or a fallible call), when every other definition is an
+        Err/None aggregate or a from_residual result. On the Continue edge the value came from that definition."""
+        t = self.fn.blocks[branch_block]["term"]
+        if t["t"] != "call" or not t["args"]:
+            return None
+        if len(self.du.whole_defs(t["args"][0].get("pl", {}).get("l", -1))) == 1 and not t["args"][0].get("pl", {}).get("p"):
+            d = self.du.whole_defs(t["args"][0]["pl"]["l"])[0]
+            if d[2] == "call":
+                return None
+        oks = []
+        for o in self.du.origins(t["args"][0]):
+            if o[0] == "agg":
+                v = o[2]["rhs"].get("variant")
+                if v in ("Ok", "Some"):
+                    oks.append(o)
+                elif v in ("Err", "None"):
+                    continue
+                else:
+                    return None
+            elif o[0] == "call":
+                if (o[2].get("callee") or "").endswith("from_residual"):
+                    continue
+                oks.append(o)
+            else:
+                return None
+        if len(oks) == 1 and not (oks[0][3] if len(oks[0]) > 3 else None):
+            return oks[0]
+        return None
+
     def place(self, pl, depth=0):
-        base = self.local(pl["l"], depth)
-        for e in pl["p"]:
+        pp = pl["p"]
+        if len(pp) >= 2 and isinstance(pp[0], dict) and "dc" in pp[0] and pp[0].get("n") == "Continue" and isinstance(pp[1], dict) and pp[1].get("f") == 0 and depth < 25:
+            ds = self.du.whole_defs(pl["l"])
+            if len(ds) == 1 and ds[0][2] == "call" and re.search(r"Try>?::branch$", ds[0][3].get("callee") or ""):
+                o = self._ok_origin(ds[0][0])
+                if o is not None and o[0] == "agg" and o[2]["rhs"].get("ops"):
+                    inner = self.val(o[2]["rhs"]["ops"][0], depth + 1)
+                    return self._project(inner, pp[2:], depth)
+        return self._project(self.local(pl["l"], depth), pp, depth)
+
+    def _project(self, base, proj, depth):
+        for e in proj:
             if e == "*":
                 if base.startswith("&"):
                     base = base[1:]
@@ -179,7 +220,22 @@ class Sym:
                         if f:
                             out.append(f + (d,))
         self._facts[block] = out
-        return out
+        # `helper(..)?` with the helper inlined: on the Continue edge the value is the helper's Ok result, so the tests that guarded
+        # the construction of that Ok hold here as well
+        out2 = []
+        for f in out:
+            m = re.fullmatch(r"discr\(call@(\d+):<std::(result::Result|option::Option)<T(, E)?> as std::ops::Try>::branch\)", f[0])
+            if m and f[1] == "==" and f[2] == 0:
+                o = self._ok_origin(int(m.group(1)))
+                if o is not None and o[1] != block and o[1] not in dom.get(block, ()):
+                    have = {(x[0], x[1], x[2]) for x in out} | {(x[0], x[1], x[2]) for x in out2}
+                    for g in self.facts_at(o[1]):
+                        if (g[0], g[1], g[2]) not in have:
+                            out2.append(g)
+                            have.add((g[0], g[1], g[2]))
+            out2.append(f)
+        self._facts[block] = out2
+        return out2
 
     def bool_facts_at(self, block):
         """normalised boolean facts: list of (expr_string, truth, guard_block)"""
